@@ -100,9 +100,13 @@ impl TcpStream {
 
         // Until the handshake completes nothing else owns the stream-table
         // entry: release it if the connect is refused or this future is dropped.
-        let guard = ConnectGuard { pair, armed: true };
+        let mut guard = ConnectGuard {
+            pair,
+            syn_ack,
+            armed: true,
+        };
 
-        syn_ack.await.map_err(|_| {
+        (&mut guard.syn_ack).await.map_err(|_| {
             io::Error::new(io::ErrorKind::ConnectionRefused, pair.remote.to_string())
         })?;
 
@@ -207,6 +211,7 @@ impl TcpStream {
 /// completes. Releases it if the connect fails or its future is dropped.
 struct ConnectGuard {
     pair: SocketPair,
+    syn_ack: oneshot::Receiver<()>,
     armed: bool,
 }
 
@@ -220,7 +225,21 @@ impl ConnectGuard {
 impl Drop for ConnectGuard {
     fn drop(&mut self) {
         if self.armed {
-            World::current_if_set(|world| world.current_host_mut().tcp.reset_stream(self.pair));
+            World::current_if_set(|world| {
+                // The peer may already have accepted (SYN-ACK fired) while this
+                // future was not polled again: it holds an established stream,
+                // so tell it the connection is gone instead of vanishing.
+                if self.syn_ack.try_recv().is_ok() {
+                    let pair = self.pair;
+                    let rst = Protocol::Tcp(Segment::Rst);
+                    if is_same(pair.local, pair.remote) {
+                        send_loopback(pair.local, pair.remote, rst);
+                    } else {
+                        let _ = world.send_message(pair.local, pair.remote, rst);
+                    }
+                }
+                world.current_host_mut().tcp.reset_stream(self.pair)
+            });
         }
     }
 }
